@@ -614,6 +614,11 @@ def stage_check(ctx, col, names, gens, n_quick, n_thorough, rule, extra=None, ag
                            'checker': 'Check/BiasCheckers.v %s_ok' % col}, facts)
         if extra:
             extra(ctx, req, res, info, v, facts)
+        if v[0] == 2 and ci is not None:
+            # the bias fails on data on which its specification (the model) produces a result: what the property says the bias does
+            # does not happen for this request
+            ctx.violation('%s fails where its specification succeeds: %s' % (name, str(res.get('err'))[:200]),
+                          {'request': req, 'bias': info['bias'], 'before': info['stage'].get('curBefore'), 'error': res.get('err')}, facts)
         if v[0] != 0 and (agree_names is None or name in agree_names):
             broken.append((req, info, v))
     if broken and not any(vv[2] for vv in ctx.violations) and not ctx.replay and search_gens:
@@ -1144,6 +1149,49 @@ def c15(ctx):
             if full[a] is not None and full[b] is not None and len(full[a]) == n and full[b] != full[a][::-1]:
                 ctx.violation('%s is not the exact reverse of %s' % (b, a), {'request': base, 'orderings': full, 'seed': seed},
                               {'method': base['preferenceFunction'], 'bias': 'criteriaOmission'})
+    # weakestByProbability puts a less important criterion first more often than a more important one (strongestByProbability the opposite):
+    # first positions counted over 240 seeds on problems whose importances are far apart (0 / 1 / 10 - a zero importance included)
+    for _ in range(n_cases(ctx, 6, 60) if not ctx.replay else 0):
+        m = rnd.choice(['majorityHeuristic', 'weightedSum', 'aspectEliminationHeuristic'])
+        base = gen.any_request(rnd, m)
+        cids = [c['id'] for c in base['criteria']]
+        if len(cids) < 3:
+            continue
+        cids = cids[:3]
+        base['criteria'] = [c for c in base['criteria'] if c['id'] in cids]
+        for c in base['criteria']:
+            c['type'] = 'gain'
+            c.pop('valuesRange', None)
+        for a in base['knownAlternatives']:
+            a['criteria'] = {k: 1.0 for k in cids}          # weightedSum importance = weight x summed values
+        imp = dict(zip(cids, rnd.sample([0.0, 1.0, 10.0], 3)))
+        base['methodParameters']['weights'] = dict(imp)
+        if m == 'aspectEliminationHeuristic':
+            base['methodParameters']['function'] = 'thresholds'
+            base['methodParameters']['params'] = {'thresholds': []}
+        lo = min(cids, key=lambda k: imp[k])
+        hi = max(cids, key=lambda k: imp[k])
+        for od, more, less in (('weakestByProbability', lo, hi), ('strongestByProbability', hi, lo)):
+            first = {k: 0 for k in cids}
+            ok = True
+            for seed in range(240):
+                r = json.loads(json.dumps(base))
+                r['biases'] = [{'name': 'criteriaOmission', 'props': {'ratio': 0.34, 'ordering': od, 'randomSeed': seed}}]
+                t = ctx.pipe.call({'op': 'trace', 'req': r})
+                st = [x for x in (t.get('stages') or []) if x.get('name') == 'criteriaOmission']
+                pr = st[0].get('props') if st else None
+                om = [c.get('id') for c in (pr or {}).get('omittedCriteria') or []] if isinstance(pr, dict) else []
+                if len(om) != 1:
+                    ok = False
+                    break
+                first[om[0]] += 1
+            ctx.count('metamorphic/by-probability-frequency')
+            ctx.evaluations += 1
+            if ok and not first[more] > first[less]:
+                ctx.violation('%s: over 240 seeds the criterion of importance %s came first %d times, the one of importance %s %d times'
+                              % (od, imp[more], first[more], imp[less], first[less]),
+                              {'request': base, 'ordering': od, 'first_position_counts': first, 'importances': imp},
+                              {'method': m, 'bias': 'criteriaOmission'})
     return ctx.finish(
         'traced applications of criteriaOmission inside random bias sequences over all methods: five orderings and seeds, ratios on '
         'floor boundaries, min/max clamps, superfluous parameter entries; plus, where omission is the first bias, the decision is compared '
@@ -1486,7 +1534,17 @@ def c09(ctx):
         req = gen.heuristic_request(rnd, rnd.choice(['majorityHeuristic', 'satisfactionHeuristic']))
         req['methodParameters']['currentChoice'] = rnd.choice(req['choseToMake'])
         return gen.add_biases(rnd, req, prob_mix=False)
-    gens = [(2, allc), (2, cur_in), (1, gen_biased())]
+    def extra_values(rnd):
+        """alternatives holding values for criteria the request does not declare (a data set with more columns than the problem uses);
+        methods that tolerate them"""
+        req = gen.biased_request(rnd, method=rnd.choice(['weightedSum', 'electreIII', 'majorityHeuristic', 'aspectEliminationHeuristic',
+                                                         'satisfactionHeuristic']),
+                                 names=[rnd.choice(['fatigue', 'fatigue', 'anchoring', 'preferenceReversal'])] if rnd.random() < 0.6 else [], prob_mix=False)
+        for a in req['knownAlternatives']:
+            if rnd.random() < 0.7:
+                a['criteria']['zz_unused_column'] = rnd.choice([1.0, 2.5, -3.0])
+        return req
+    gens = [(2, allc), (2, cur_in), (1, gen_biased()), (1, extra_values)]
     infos, verd, reqs, ress = stage_check(ctx, None, None, gens, 160, 3000, '', extra=c09_extra)
     for req, res in zip(reqs, ress):
         if res.get('requestUnchanged') is False:
@@ -1643,6 +1701,7 @@ def invalid_variants(rnd, req):
         mod('electre thresholds not increasing', lambda r: r['methodParameters']['electreCriteria'][c0].update(q={'a': 0, 'b': 2.0}, p={'a': 0, 'b': 1.0}))
         mod('electre veto below preference', lambda r: r['methodParameters']['electreCriteria'][c0].update(p={'a': 0, 'b': 2.0}, v={'a': 0, 'b': 1.5}))
         mod('electre criterion without parameters', lambda r: r['methodParameters']['electreCriteria'].pop(c0))
+        mod('electre distillation function negative on [0,1]', lambda r: r['methodParameters'].update(electreDistillation={'a': -0.2, 'b': 0.1}))
     if m == 'majorityHeuristic':
         mod('unknown draw policy', lambda r: r['methodParameters'].update(drawResolution='noSuchPolicy'))
         mod('unknown current choice', lambda r: r['methodParameters'].update(currentChoice='no-such-alternative'))
@@ -1810,7 +1869,9 @@ def c20(ctx):
             ctx.signatures.add(('valid', m, st))
             ctx.sample({'valid_request': req, 'status': st}, limit=1)
             inv = invalid_variants(rnd, req)
-            for name, r in (inv if not ctx.quick else rnd.sample(inv, min(len(inv), 14))):
+            chosen = inv if not ctx.quick else rnd.sample(inv, min(len(inv), 14))
+            chosen = chosen + [x for x in inv if x[0].startswith('electre distillation') and x not in chosen]
+            for name, r in chosen:
                 st2, j2 = shot(json.dumps(r).encode(), name, 400, r)
                 ctx.signatures.add(('invalid', name, m, st2))
                 ctx.count('constraint/' + name)
@@ -1818,6 +1879,12 @@ def c20(ctx):
                     known = gen.METHODS if name == 'unknown method' else gen.BIASES
                     if not all(k in j2.get('error', '') for k in known):
                         ctx.violation('the error for an %s does not list the available names' % name, {'request': r, 'answer': j2}, {'what': name})
+            # the valid request once more, after its rejected variants: answered, and with the same verdict and body as before
+            if st in (200, 400):
+                st6, j6 = shot(json.dumps(req).encode(), 'valid request again after its rejected variants', st, req)
+                if st6 == st and j6 != j and st == 200:
+                    ctx.violation('a valid request is answered differently after rejected requests were served',
+                                  {'request': req, 'first': j, 'again': j6}, {'what': 'valid again'})
             for name, r in late_rejections(rnd, req):
                 st5, _ = shot(json.dumps(r).encode(), name, None, r)
                 ctx.signatures.add(('late', name, m, st5))
@@ -1828,6 +1895,24 @@ def c20(ctx):
             for b in (hb if not ctx.quick else rnd.sample(hb, min(len(hb), 16))):
                 st3, _ = shot(b, 'hostile body')
                 ctx.signatures.add(('hostile', hash(b[:40]) % 1000, st3))
+            if not srv.alive():
+                srv.close()
+                srv = Server(ctx.binary, mem_kb=3 * 1024 * 1024)
+        # a rejected optional parameter must leave nothing behind: electreIII relying on the default distillation function, the same problem with
+        # a function that is rejected (negative on [0,1]) and with accepted ones, then the first request again
+        for _ in range(n_cases(ctx, 4, 60) if not ctx.replay else 0):
+            req = gen.electre_request(rnd, n_alts=rnd.choice([2, 3, 4, 5]))
+            req['methodParameters'].pop('electreDistillation', None)
+            st, j = shot(json.dumps(req).encode(), 'valid electreIII request with the default distillation function', 200, req)
+            for dist, exp in (({'a': -0.2, 'b': 0.1}, 400), ({'a': 0, 'b': 0.0}, 200), ({'a': -2.0, 'b': 1.0}, 400), ({'a': -0.25, 'b': 0.5}, 200)):
+                r = json.loads(json.dumps(req))
+                r['methodParameters']['electreDistillation'] = dist
+                shot(json.dumps(r).encode(), 'distillation function %s' % json.dumps(dist), exp, r)
+                st7, j7 = shot(json.dumps(req).encode(), 'the default-function request again after another distillation function was served', 200, req)
+                if st == 200 and st7 == 200 and j7 != j:
+                    ctx.violation('a valid request is answered differently after requests with other parameters were served',
+                                  {'request': req, 'first': j, 'again': j7, 'served_in_between': r}, {'what': 'valid again'})
+            ctx.count('sequence/electre-default-after-custom')
             if not srv.alive():
                 srv.close()
                 srv = Server(ctx.binary, mem_kb=3 * 1024 * 1024)
